@@ -24,7 +24,7 @@ from . import sim_c06 as pool
 
 ID = "C06"
 LEVEL = "proof"
-STRENGTH = "partial"   # never_early only under `Guard` (open F5b); liveness only under `LGuard` (open F9) and as reachability
+STRENGTH = "partial"   # never_early only under `Guard` (open F5b); liveness only under `LGuard` (open F9), as reachability, and for cycles that run to their end (open F10)
 ENGINES = ["lean-model", "pyextract", "purediff", "kopfsim"]
 TIE = ("T (conditions and effects of the finalizer block of process_resource_causes + the carry filter of process_resource_event: "
        "AST → Lean, re-proved equal to the model, and `decision` = their composition) + D (real finalizers.block_deletion/"
@@ -50,6 +50,8 @@ LEVEL_TEXT = ("Lean theorems for ALL finalizer lists / fn sequences / decision i
               "in a cycle's patch (open F9, carried_fn_loses_wakeup; the former F8 history is the regression theorem noop_fn_keeps_wakeup); 'once all are finished it is removed' as an INEVITABILITY has no "
               "theorem: release_reachable_when_quiet is reachability by the operator's steps alone with the environment's part of the "
               "cycle labels chosen quiet (consistent, no other delay, no re-scheduling) and all queued events already marked. "
+              "A cycle that dies in its patching (API error past the request retries, swallowed by throttled()) has no label in the "
+              "LTS: the lost wake-up after it is open finding F10, seen by the liveness oracle only. "
               "'Abandoned after its timeouts' is an environment label here (C09 owns stop_daemons' stages). The LTS is "
               "trace-validated (tie A).")
 THEOREMS = [("Kopf.Props.C06", "Kopf.C06." + n) for n in [
@@ -989,8 +991,12 @@ def _slept(view: View, cyc: dict, ab: dict) -> bool | None:
     ap = cyc["apply"]
     if "t_end" not in ap or cyc.get("error"):
         return None
-    if any(e[1] in ("stop", "kill") and ap["t"] - 1e-9 <= e[0] <= cyc.get("t1", float("inf")) + 1e-9 for e in view.sc.get("timeline", [])):
-        return None   # the operator was being stopped while the cycle slept
+    t1 = cyc.get("t1", float("inf"))
+    inc_end = view.ends.get(cyc["inc"], float("inf"))
+    inc_start = max([m["t"] for m in view.tr["marks"] if m["what"] == "start" and m.get("inc") == cyc["inc"]] or [0.0])
+    stop_reqs = [e[0] for e in view.sc.get("timeline", []) if e[1] in ("stop", "kill") and inc_start - 1e-9 <= e[0] <= inc_end + 1e-9]
+    if (stop_reqs and min(stop_reqs) <= t1 + 1e-9) or inc_end <= t1 + 1e-9:
+        return None   # the operator was being stopped (a graceful stop takes time) before the cycle was over
     n_main = len(_main_chain(view, cyc)[0]) + (1 if ab["json"] is not None else 0)
     rs = [r for r in _cycle_requests(view, cyc) if r["wall"] >= ap["t"] + n_main * LAT and "merge-patch" in (r.get("ctype") or "")]
     touched = any(_touch_only(r) for r in rs)
@@ -1085,6 +1091,7 @@ def trace_items(view: View) -> tuple[dict, list, dict] | None:
             return (tj, 0, merge_idx + 0.5)
         return (tj, -1 if tj > t else 1, seq)
 
+    writers = {i: view.writer(vs[i], vs[i - 1]) for i in range(1, len(vs))}
     items: list[tuple] = []      # (t, rank, seq, label, expectation-or-None, kind)
     note: dict[str, Any] = {"truncated": None}
     req_label: dict[int, tuple] = {}     # id(request) -> (label, cycle) for the operator's writing requests
@@ -1129,9 +1136,10 @@ def trace_items(view: View) -> tuple[dict, list, dict] | None:
         chg_hs = [h for h in view.handlers if h["kind"] in CHANGING_KINDS]
         changing = any(_match(h, labels) for h in chg_hs)
         early = bool(cyc.get("cause") is not None and changing and pcc is None and not new)
+        # (a merge patch that changes nothing is answered with the current version — possibly one a foreign actor
+        # stored at that very instant: `writer` tells them apart)
         mchg = bool(merge is not None and merge.get("response") == 200 and isinstance(merge.get("result"), dict)
-                    and any(v["event"] != "DELETED" and v["t"] == merge["t"] + LAT and
-                            _meta(v["body"]).get("resourceVersion") == _meta(merge["result"]).get("resourceVersion") for v in vs))
+                    and any(w_ is merge for w_ in writers.values()))
         env = {"consistent": not early, "merge": merge is not None,
                "otherChanging": any(_match(h, labels) for h in chg_hs if h is not hdel),
                "otherDelays": bool(pcc and pcc.get("delays")), "mergeChanges": mchg,
@@ -1154,6 +1162,7 @@ def trace_items(view: View) -> tuple[dict, list, dict] | None:
                 continue
         tj = t
         merge_idx = None
+        merge_after = None      # the (unchanging) merge response was placed right after this foreign version of its instant
         if merge is not None:
             tj = merge["wall"] + LAT
             if merge.get("response") != 200:
@@ -1162,9 +1171,16 @@ def trace_items(view: View) -> tuple[dict, list, dict] | None:
                 continue
             if mchg:
                 req_label[id(merge)] = (["merge"], cyc)
-                merge_idx = idx.get(_meta(merge["result"]).get("resourceVersion"))
+                merge_idx = next(i for i, w_ in writers.items() if w_ is merge)
             else:
-                items.append((tj, -1 if tj > t else 1, seq + 3, ["merge"], {}, "merge"))   # its response precedes a slip at the same instant
+                # its response precedes a slip at the same instant (a slip is placed at the NEXT request) — but it follows a
+                # foreign write of that instant whose version it reports
+                ridx = idx.get(_meta(merge["result"]).get("resourceVersion")) if isinstance(merge.get("result"), dict) else None
+                if ridx is not None and ridx > 0 and vs[ridx]["t"] == tj and writers.get(ridx) is None:
+                    items.append((tj, 0, ridx + 0.25, ["merge"], {}, "merge"))
+                    merge_after = ridx
+                else:
+                    items.append((tj, -1 if tj > t else 1, seq + 3, ["merge"], {}, "merge"))
         if "remaining_fns" not in ap and js is None:
             continue
         if js is not None:
@@ -1173,7 +1189,16 @@ def trace_items(view: View) -> tuple[dict, list, dict] | None:
             if js.get("response") == 200:
                 req_label[id(js)] = (["json", False], cyc)
             elif js.get("response") == 422:
-                items.append((*jkey(tj, t, merge_idx, seq + 4), ["json", forced], {"pending": None, "mem": []}, "json"))
+                key = jkey(tj, t, merge_idx, seq + 4)
+                if not forced:
+                    # a genuine rejection: a version newer than the tested one existed when the request was served; if that
+                    # is a foreign write of the very instant of the response, the response comes after it
+                    tested = next((o.get("value") for o in (js.get("payload") or []) if isinstance(o, dict) and o.get("op") == "test"), None)
+                    ti = idx.get(tested)
+                    newer = [i for i in range((ti if ti is not None else -1) + 1, len(vs)) if vs[i]["t"] <= tj]
+                    if newer and vs[newer[0]]["t"] == tj:
+                        key = (tj, 0, newer[0] + 0.5)
+                items.append((*key, ["json", forced], {"pending": None, "mem": []}, "json"))
             else:
                 note["truncated"] = note["truncated"] or f"JSON patch answered {js.get('response')}"
                 items.append((tj, 1, seq + 4, None, None, "stop"))
@@ -1184,7 +1209,8 @@ def trace_items(view: View) -> tuple[dict, list, dict] | None:
                 sl = _slept(view, cyc, {"merge": merge, "json": js})
                 if sl is not None:
                     expj["sleeping"] = sl     # application.apply: sleep-then-touch iff the patch was empty or changed nothing
-            items.append((*jkey(tj, t, merge_idx, seq + 4), ["json", False], expj, "json"))
+            key = (tj, 0, merge_after + 0.3) if merge_after is not None else jkey(tj, t, merge_idx, seq + 4)
+            items.append((*key, ["json", False], expj, "json"))
         for r in _cycle_requests(view, cyc):
             if r is not merge and r is not js and _touch_only(r) and r.get("response") == 200:
                 req_label[id(r)] = (["touch"], cyc)
@@ -1195,7 +1221,7 @@ def trace_items(view: View) -> tuple[dict, list, dict] | None:
     # ---- stored versions, in order
     for i in range(1, len(vs)):
         prev, cur = vs[i - 1], vs[i]
-        w = view.writer(cur, prev)
+        w = writers[i]
         exp = server(i)
         if w is not None:
             lab = req_label.get(id(w))
